@@ -89,10 +89,26 @@ func CtxWithCancelCause(parent context.Context) (context.Context, context.Cancel
 	return c, func(cause error) { c.cancel(context.Canceled, cause) }
 }
 
+// deadlineCtxs: every deadline context created so far (for LetDeadlinesPass).
+var deadlineCtxs []*ModelCtx
+
+// LetDeadlinesPass models "enough time has passed": every deadline context that is still alive expires now, which
+// also wakes goroutines blocked on its Done(). (A deadline otherwise only strikes at a poll; a goroutine parked on
+// Done() of a context whose poll said "not yet" would stay parked in the model although its timer fires in reality.)
+func LetDeadlinesPass() {
+	for _, c := range deadlineCtxs {
+		if !c.closed {
+			c.cancel(context.DeadlineExceeded, c.dlCause)
+		}
+	}
+	deadlineCtxs = nil
+}
+
 func CtxWithTimeoutCause(parent context.Context, d time.Duration, cause error) (context.Context, context.CancelFunc) {
 	c := newModelCtx(parent)
 	c.deadline = true
 	c.dlCause = cause
+	deadlineCtxs = append(deadlineCtxs, c)
 	return c, func() { c.cancel(context.Canceled, nil) }
 }
 
